@@ -165,4 +165,62 @@ theorem val_bitsMSB (idx rsh : Nat) : ∀ m, val (bitsMSB idx rsh m) = (idx >>> 
     rcases h2 with h | h <;> simp [h] <;> omega
 
 
+/-! ### `glwe_blind_rotation(_assign)`: the ping-pong loop -/
+
+/-- value of the `mask`-bit field starting at bit `rsh` -/
+def fieldVal (bit : Nat → Bool) (rsh : Nat) : Nat → Nat
+  | 0 => 0
+  | k + 1 => fieldVal bit rsh k + (if bit (k + rsh) then 2 ^ k else 0)
+
+theorem fieldVal_testBit (idx rsh mask : Nat) :
+    fieldVal (fun k => idx.testBit k) rsh mask = (idx >>> rsh) % 2 ^ mask := by
+  induction mask with
+  | zero => simp [fieldVal, Nat.mod_one]
+  | succ k ih =>
+    rw [fieldVal, ih, Nat.mod_pow_succ]
+    have : idx.testBit (k + rsh) = ((idx >>> rsh).testBit k) := by
+      rw [Nat.testBit_shiftRight, Nat.add_comm]
+    rw [this, Nat.testBit_eq_decide_div_mod_eq]
+    rcases Nat.mod_two_eq_zero_or_one (idx >>> rsh / 2 ^ k) with h | h <;> simp [h]
+
+/-- the signed amount: `+v·2^lsh` for `sign = true` -/
+def signedAmt (sign : Bool) (v lsh : Nat) : Int := if sign then ((v * 2 ^ lsh : Nat) : Int) else -((v * 2 ^ lsh : Nat) : Int)
+
+theorem brFold_inv {P : Type} (rot : Int → P → P) (cm : Bool → P → P → P)
+    (hadd : ∀ p q x, rot p (rot q x) = rot (q + p) x)
+    (hzero : ∀ x, rot 0 x = x)
+    (hcm : ∀ b x y, cm b x y = if b then x else y)
+    (sign : Bool) (bit : Nat → Bool) (rsh lsh : Nat) (res tmp0 : P) (k : Nat) :
+    let st := (List.range k).foldl (brStep rot cm sign bit rsh lsh) { res := res, tmp := tmp0, aIsRes := true }
+    st.aIsRes = decide (k % 2 = 0) ∧
+    (if st.aIsRes then st.res else st.tmp) = rot (signedAmt sign (fieldVal bit rsh k) lsh) res := by
+  induction k with
+  | zero => simp [signedAmt, fieldVal, hzero]
+  | succ k ih =>
+    rw [List.range_succ, List.foldl_append]
+    simp only [List.foldl_cons, List.foldl_nil]
+    generalize (List.range k).foldl (brStep rot cm sign bit rsh lsh) { res := res, tmp := tmp0, aIsRes := true } = st at ih ⊢
+    obtain ⟨hp, hv⟩ := ih
+    have hval : cm (bit (k + rsh)) (rot (if sign then 2 ^ (k + lsh) else -(2 ^ (k + lsh))) (if st.aIsRes then st.res else st.tmp))
+        (if st.aIsRes then st.res else st.tmp) = rot (signedAmt sign (fieldVal bit rsh (k + 1)) lsh) res := by
+      rw [hcm, hv]
+      by_cases hb : bit (k + rsh) = true
+      · rw [if_pos hb, hadd]
+        congr 1
+        simp only [signedAmt, fieldVal, if_pos hb]
+        cases sign <;> simp <;> ring
+      · rw [if_neg hb]
+        simp only [signedAmt, fieldVal, if_neg hb, Nat.add_zero]
+    unfold brStep
+    by_cases ha : st.aIsRes = true
+    · simp only [ha, if_true] at hval hp ⊢
+      refine ⟨?_, hval⟩
+      have : k % 2 = 0 := by simpa using hp.symm
+      simp; omega
+    · have ha' : st.aIsRes = false := by simpa using ha
+      simp only [ha'] at hval hp ⊢
+      refine ⟨?_, by simpa using hval⟩
+      have : ¬ k % 2 = 0 := by simpa using hp.symm
+      simp; omega
+
 end BlindSel
